@@ -32,8 +32,7 @@ OpOk(e) ==
     [] e.op = "esub"  -> ExtSubOk(e.d, e.a, e.b, e.r)
     [] e.op = "emul"  -> ExtMulOk(e.d, e.a, e.b, e.r)
     [] e.op = "einv"  -> ExtInvOk(e.d, e.a, e.r)
-    [] e.op = "eexp"  -> ExtExpOk(e.d, e.a, e.e, e.r)
-    [] e.op = "efrob" -> ExtFrobOk(e.d, e.a, e.r)
+    [] e.op = "echain" -> ExtChainOk(e.d, e.a, e.e, e.bits, e.steps, e.sqs, e.r)
     [] e.op = "binv"  -> BatchInvOk(e.x, e.r)
     [] OTHER          -> FALSE
 
